@@ -81,6 +81,20 @@ class Matcher:
                 out.append(n)
         return out
 
+    def when(self, fn, cond_spec, nested=False):
+        """[(statements run when the condition holds, statements run when it does not)] for every if-statement that tests the
+        condition or its negation - whichever way round it is written"""
+        want = T.spec(cond_spec, boolean=True) if isinstance(cond_spec, str) else cond_spec
+        out = []
+        for n in self.nodes(fn, nested):
+            if isinstance(n, ast.If):
+                t = T.cond(n.test)
+                if T.alpha_eq(t, want, self.var_test(fn)):
+                    out.append((n.body, n.orelse))
+                elif T.alpha_eq(t, T.mk_not(want), self.var_test(fn)):
+                    out.append((n.orelse, n.body))
+        return out
+
     def fors(self, fn, iter_spec, nested=False):
         out = []
         for n in self.nodes(fn, nested):
